@@ -9,5 +9,10 @@ def cfgs(tier):
             (1, gen_prog.Cfg(max_depth=2, max_nest=4 if not deep else 5, max_stmts=4))]
 
 
+def transform(rng, prog):
+    # half of the programs: loops at the same nesting depth re-use their loop variable names (legal: the scopes are disjoint)
+    return gen_prog.reuse_loop_vars(prog) if rng.random() < 0.5 else prog
+
+
 def run(res, b, tier, seed):
-    semprop.run_semantic(res, b, tier, seed, "C01", cfgs)
+    semprop.run_semantic(res, b, tier, seed, "C01", cfgs, transform)
